@@ -275,6 +275,72 @@ def t3_postprocess(pid, lines, go, mo):
     return go, mo
 
 
+RELATIONAL = {"C11", "C12", "C13"}
+
+
+def relational_verdict(line, go_reply, mo_reply):
+    """C11 constrains a RELATION (any Groebner basis of the same ideal is acceptable). When the first differing reply of a
+    history is that of `iK=groebner iJ`, the implementation's generator list is judged by the model's own proved decision
+    procedures instead of by equality with the model's list: `isgroebner` on a fresh ideal made of the list (Buchberger's
+    criterion, Props/C11Full/C12), every input generator reduces to zero modulo the list, every generator of the list
+    reduces to zero modulo the model's basis of the input ideal. Returns True (a valid basis of the same ideal: the
+    difference is no failing input), False (the property fails on this input) or None (not such a case / undecided)."""
+    if not line.startswith("hist "):
+        return None
+    head, _, rest = line.partition(" | ")
+    ops = [o.strip() for o in rest.split(" | ")]
+    snap = head.endswith(" 1")
+    g = go_reply.split(" ## ")[0] if (" ## " in go_reply and not snap) else go_reply
+    m = mo_reply.split(" ## ")[0] if (" ## " in mo_reply and not snap) else mo_reply
+    d = first_diff(g, m)
+    if d is None or d[0] >= len(ops):
+        return None
+    mt = re.fullmatch(r"(i\d+)=groebner (i\d+)", ops[d[0]])
+    if not mt:
+        return None
+    out_reply = d[1].split(" ## ")[0].strip()
+    if not out_reply.startswith("ok "):
+        return None
+    out_gens = [x for x in out_reply[3:].strip().split("|") if x]
+    h0 = head[:-2] + " 0" if snap else head
+    pre = run_go([h0 + " | " + " | ".join(ops[: d[0]] + ["obs " + mt.group(2)])])[0]
+    last = pre.split(" ## ")[0].split(" | ")[-1]
+    mg = re.search(r"gens=(\S*)", last)
+    if not mg:
+        return None
+    in_gens = [x for x in mg.group(1).split("|") if x]
+    if not in_gens or not out_gens:
+        return None
+    chk, n = [], 0
+    def poly(g_):
+        nonlocal n
+        r = "q%d" % n; n += 1
+        chk.append("%s=map@0 %s" % (r, g_))
+        return r
+    ins = [poly(x) for x in in_gens]
+    chk.append("i0=ideal@0 " + " ".join(ins))
+    outs = [poly(x) for x in out_gens]
+    chk.append("i1=ideal@0 " + " ".join(outs))
+    chk.append("isgroebner i1")
+    want_zero = []
+    for x in in_gens:
+        r = poly(x); chk.append("ireduce i1 %s" % r); want_zero.append(len(chk) - 1)
+    chk.append("i2=groebner i0")
+    for x in out_gens:
+        r = poly(x); chk.append("ireduce i2 %s" % r); want_zero.append(len(chk) - 1)
+    rep = run_model([h0 + " | " + " | ".join(chk)])[0]
+    if "fuel-exhausted" in rep or rep.startswith(("CRASH", "SKIPPED", "bad-")):
+        return None
+    reps = rep.split(" ## ")[0].split(" | ")
+    if len(reps) < len(chk):
+        return None
+    pred = reps[chk.index("isgroebner i1")].strip()
+    if pred not in ("pred true", "pred false"):
+        return None
+    zeros = all(re.fullmatch(r"ok \d+#", reps[j].strip()) for j in want_zero)
+    return pred == "pred true" and zeros
+
+
 def correspondence(pid, tier, seed, res, lines_extra=None):
     rng = random.Random(seed * 1000003 + int(pid[1:]))
     genf = getattr(G, "gen_" + pid, None)
@@ -307,6 +373,7 @@ def correspondence(pid, tier, seed, res, lines_extra=None):
     go, mo = t3_postprocess(pid, lines, go, mo)
     kf = known_findings()
     dis, inconclusive, kinds = [], 0, {}
+    rel, rel_budget = [], 60
     known_hit = {}
     for i, l in enumerate(lines):
         kind = l.split()[0] + ((" " + l.split()[1]) if l.split()[0] in ("aux", "define", "shape") else "")
@@ -320,6 +387,15 @@ def correspondence(pid, tier, seed, res, lines_extra=None):
         if k:
             known_hit.setdefault(k["id"], (k, l, go[i]))
             continue
+        if pid in RELATIONAL and rel_budget > 0 and "=groebner " in l:
+            rel_budget -= 1
+            try:
+                v = relational_verdict(l, go[i], mo[i])
+            except Exception:
+                v = None
+            if v is True:
+                rel.append(i)
+                continue
         dis.append(i)
     still = replay_known(pid, res, kf)
     # distinct non-trivial: distinct case lines whose reply is not a bare parse failure
@@ -345,6 +421,14 @@ def correspondence(pid, tier, seed, res, lines_extra=None):
             txt += "note: shrunk case no longer disagrees; original kept\n"
         res.violation(txt, tail)
         reported += 1
+    if rel and not dis:
+        # the correspondence on generator lists no longer checks, but on every differing case the implementation's list is
+        # a Groebner basis of the same ideal by the model's proved decision procedures: no input on which the property fails
+        i = rel[0]
+        txt = "property: %s\nkind: correspondence (model vs implementation) no longer checks — relational clause\nseed: %d\n" % (pid, seed)
+        txt += "what: GroebnerBasis returns another generator list than the model on %d of the cases of this run; on each of them the implementation's list was judged by the model's proved decision procedures (isgroebner on a fresh ideal, mutual reduction to zero) to be a Groebner basis of the SAME ideal, so none of them is an input on which the property fails\n" % len(rel)
+        txt += "first such case: %s\nimplementation: %s\nmodel: %s\n" % (lines[i], go[i][:1500], mo[i][:1500])
+        res.violation(txt, "no-failing-input-found")
     # input distribution of this run: which operations, over which kinds of field, how long, and what came back
     import collections
     op_hist, reply_hist, field_hist, lens = collections.Counter(), collections.Counter(), collections.Counter(), []
@@ -382,6 +466,7 @@ def correspondence(pid, tier, seed, res, lines_extra=None):
         "evaluations": len(lines), "operations": nops, "distinct_nontrivial": distinct,
         "rule": "case lines generated by tools/gen.py:gen_%s from VERIF_SEED plus corpus/%s.txt; a case is non-trivial if the model accepts it (not a malformed line); distinct = distinct case lines" % (pid, pid),
         "case_kinds": kinds, "corpus_cases": len(corpus), "bounded_exhaustive_cases": n_exh, "disagreements": len(dis), "inconclusive_fuel_or_timeout": inconclusive,
+        "relational_differences_valid_basis": len(rel),
         "known_findings_still_failing": still,
         "samples": [{"case": lines[i][:600], "implementation": go[i][:300], "model": mo[i][:300]} for i in
                     ([0, len(lines) // 2, len(lines) - 1] if lines else [])],
